@@ -107,12 +107,14 @@ fn tok_snap(w: &World, tok: &str, known: &BTreeSet<String>, errs: &mut Vec<Strin
                 if r.accounts.is_empty() {
                     break;
                 }
+                // walk until a page brings nothing new: a server-side page cap below ENUM_PAGE and an inclusive
+                // reading of `start_after` are both the contract's business, not this observer's
                 start = r.accounts.last().cloned();
-                let n = r.accounts.len();
-                enumerated.extend(r.accounts);
-                if n < ENUM_PAGE as usize || enumerated.len() > 10_000 {
+                let fresh: Vec<String> = r.accounts.into_iter().filter(|a| !enumerated.contains(a)).collect();
+                if fresh.is_empty() || enumerated.len() > 10_000 {
                     break;
                 }
+                enumerated.extend(fresh);
             }
             Err(e) => {
                 errs.push(format!("{} AllAccounts: {}", tok, e));
@@ -128,7 +130,12 @@ fn tok_snap(w: &World, tok: &str, known: &BTreeSet<String>, errs: &mut Vec<Strin
             Ok(b) => {
                 balances.insert(a, b.balance.u128());
             }
-            Err(e) => errs.push(format!("{} Balance {}: {}", tok, a, e)),
+            // an address the token does not list has no record: how the token answers for it is not judged
+            Err(e) => {
+                if enumerated.contains(&a) {
+                    errs.push(format!("{} Balance {}: {}", tok, a, e))
+                }
+            }
         }
     }
     TokSnap { supply, balances, enumerated }
@@ -171,11 +178,12 @@ pub fn all_history(w: &World, errs: &mut Vec<String>) -> Vec<Hist> {
     loop {
         match w.q::<h::AllHistoryResponse, _>(HUB, &h::QueryMsg::AllHistory { start_from: start, limit: Some(HISTORY_PAGE) }) {
             Ok(r) => {
-                let n = r.history.len();
-                out.extend(r.history.iter().map(to_hist));
-                if n < HISTORY_PAGE as usize {
+                // until a page brings nothing new (page caps and an inclusive `start_from` are tolerated)
+                let fresh: Vec<Hist> = r.history.iter().map(to_hist).filter(|h| !out.iter().any(|o: &Hist| o.batch_id == h.batch_id)).collect();
+                if fresh.is_empty() || out.len() > 100_000 {
                     break;
                 }
+                out.extend(fresh);
                 start = out.last().map(|x| x.batch_id);
             }
             Err(e) => {
@@ -346,6 +354,7 @@ pub fn take(w: &World) -> Snap {
     let history = all_history(w, &mut errs);
     let history_probes = history_probes(w, history.len(), &mut errs);
     let mut requests = BTreeMap::new();
+    let mut failed_requests: Vec<(String, String)> = vec![];
     for a in known.iter() {
         match w.q::<h::UnbondRequestsResponse, _>(HUB, &h::QueryMsg::UnbondRequests { address: a.clone() }) {
             Ok(r) => {
@@ -353,10 +362,18 @@ pub fn take(w: &World) -> Snap {
                     requests.insert(a.clone(), r.requests.iter().map(|(b, x, y)| (*b, x.u128(), y.u128())).collect());
                 }
             }
-            Err(e) => errs.push(format!("hub UnbondRequests {}: {}", a, e)),
+            Err(e) => failed_requests.push((a.clone(), e.to_string())),
         }
     }
     let raw_requests = raw_wait_list(w);
+    // an address without a stored claim has no record: an error instead of an empty answer is not judged (when the
+    // storage layout is not recognised every failure counts)
+    for (a, e) in failed_requests {
+        let has_record = raw_requests.as_ref().map(|r| r.contains_key(&a)).unwrap_or(true);
+        if has_record {
+            errs.push(format!("hub UnbondRequests {}: {}", a, e));
+        }
+    }
     let raw_history = raw_history(w);
     let bsei = tok_snap(w, BSEI, &known, &mut errs);
     let stsei = tok_snap(w, STSEI, &known, &mut errs);
@@ -390,10 +407,11 @@ pub fn take(w: &World) -> Snap {
                     break;
                 }
                 start = r.holders.last().map(|x| x.address.clone());
-                holders_enumerated.extend(r.holders.into_iter().map(|x| x.address));
-                if n < ENUM_PAGE as usize || holders_enumerated.len() > 10_000 {
+                let fresh: Vec<String> = r.holders.into_iter().map(|x| x.address).filter(|a| !holders_enumerated.contains(a)).collect();
+                if fresh.is_empty() || holders_enumerated.len() > 10_000 {
                     break;
                 }
+                holders_enumerated.extend(fresh);
             }
             Err(e) => {
                 errs.push(format!("reward Holders: {}", e));
@@ -415,7 +433,13 @@ pub fn take(w: &World) -> Snap {
                     HolderSnap { balance: hh.balance.u128(), index: at(hh.index), pending: at(hh.pending_rewards), accrued_query: acc.rewards.u128() },
                 );
             }
-            (Err(e), _) | (_, Err(e)) => errs.push(format!("reward Holder {}: {}", a, e)),
+            // an address that neither holds bSei nor is listed by the reward contract has no record there: how the
+            // contract answers for it (zeros or an error) is not judged
+            (Err(e), _) | (_, Err(e)) => {
+                if holders_enumerated.contains(&a) || bsei.balances.get(&a).cloned().unwrap_or(0) > 0 {
+                    errs.push(format!("reward Holder {}: {}", a, e))
+                }
+            }
         }
     }
     Snap {
